@@ -1372,6 +1372,48 @@ def inline_access_aliases(func):
     return Func(func.module, func.qualname, root, func.cls, func.parent)
 
 
+def desugar_dict_get(func):
+    """A Func in which the "entry or None" idiom   x = D.get(K)   (single assignment, no default or default None) is
+    written with the mapping itself:  `x is None` -> `K not in D`,  `x is not None` -> `K in D`,  other reads of x ->
+    `D[K]`."""
+    import copy
+
+    defs = local_defs(func.node)
+    stored = {}
+    for n in ast.walk(func.node):
+        if isinstance(n, ast.Name) and isinstance(n.ctx, (ast.Store, ast.Del)):
+            stored[n.id] = stored.get(n.id, 0) + 1
+    cands = {}
+    for name, ds in defs.items():
+        if len(ds) != 1 or ds[0] is None or stored.get(name, 0) != 1 or name in func.params:
+            continue
+        d = ds[0]
+        if isinstance(d, ast.Call) and isinstance(d.func, ast.Attribute) and d.func.attr == "get" and 1 <= len(d.args) <= 2 and not d.keywords and (len(d.args) == 1 or (isinstance(d.args[1], ast.Constant) and d.args[1].value is None)):
+            if any(isinstance(x, ast.Call) for x in ast.walk(d.args[0])) or any(isinstance(x, ast.Call) for x in ast.walk(d.func.value)):
+                continue
+            cands[name] = (d.func.value, d.args[0])
+    if not cands:
+        return func
+
+    class T(ast.NodeTransformer):
+        def visit_Compare(self, node):
+            if len(node.ops) == 1 and isinstance(node.left, ast.Name) and node.left.id in cands and isinstance(node.comparators[0], ast.Constant) and node.comparators[0].value is None and isinstance(node.ops[0], (ast.Is, ast.IsNot, ast.Eq, ast.NotEq)):
+                dmap, key = cands[node.left.id]
+                op = ast.NotIn() if isinstance(node.ops[0], (ast.Is, ast.Eq)) else ast.In()
+                return ast.copy_location(ast.Compare(left=copy.deepcopy(key), ops=[op], comparators=[copy.deepcopy(dmap)]), node)
+            return self.generic_visit(node)
+
+        def visit_Name(self, node):
+            if isinstance(node.ctx, ast.Load) and node.id in cands:
+                dmap, key = cands[node.id]
+                return ast.copy_location(ast.Subscript(value=copy.deepcopy(dmap), slice=copy.deepcopy(key), ctx=ast.Load()), node)
+            return node
+
+    root = T().visit(copy.deepcopy(func.node))
+    ast.fix_missing_locations(root)
+    return Func(func.module, func.qualname, root, func.cls, func.parent)
+
+
 def rotate_primed_loops(func):
     """A Func in which a primed loop   A; while c: B; A   (A = the same statements, textually, before the loop and at the
     end of its body; no `continue` in B) is written in the rotated form   while True: A; if not c: break; B."""
